@@ -211,7 +211,12 @@ def download_window_oracle(obs):
     cfg = obs.config
     win = cfg.max_in_memory_download_chunks
     C = cfg.multipart_chunksize
-    stats = {'max_lookahead': 0, 'nonseekable_ranged': 0, 'reached_window': 0, 'max_unwritten_bytes': 0}
+    stats = {'max_lookahead': 0, 'nonseekable_ranged': 0, 'reached_window': 0, 'max_alive_body_bytes': 0, 'alive_samples': 0,
+             'alive_at_window': 0}
+    io_chunk = cfg.io_chunksize
+    # response data alive inside the library: at most the window's worth of parts awaiting their turn, the pending destination
+    # writes, and one chunk in the hands of each request thread and of the IO thread
+    alive_bound = win * C + (cfg.max_io_queue_size + cfg.max_request_concurrency + 1) * io_chunk
     for x in obs.xfers:
         if x.kind != 'download' or x.spec.get('dst') not in ('nonseekable', 'fifo'):
             continue
@@ -219,7 +224,7 @@ def download_window_oracle(obs):
             continue
         stats['nonseekable_ranged'] += 1
         finished = set()
-        received = written = 0
+        over = False
         first_trouble = min([e['n'] for e in obs.events if e['kind'] in ('cancel.begin',)], default=10 ** 12)
         hard_fault = min([e['n'] for e in obs.events if e['kind'] == 'fault' and e.get('fkind') not in
                           ('timeout', 'connreset', 'readtimeout', 'protocol', 'incomplete')], default=10 ** 12)
@@ -227,6 +232,16 @@ def download_window_oracle(obs):
         for e in obs.events:
             if e.get('label') != x.label or e['n'] >= stop:
                 continue
+            if e['kind'] == 'body.read' and e.get('alive') is not None:
+                stats['alive_samples'] += 1
+                stats['max_alive_body_bytes'] = max(stats['max_alive_body_bytes'], e['alive'])
+                if e['alive'] >= win * C:
+                    stats['alive_at_window'] = 1
+                if e['alive'] > alive_bound and not over:
+                    over = True
+                    viol.append(V(f'{x.label}: {e["alive"]} bytes of response data are held by the library (after {e["key"]}); the window '
+                                  f'allows {win} parts of {C} (+ {alive_bound - win * C} for pending writes and chunks in hand)',
+                                  sym='held-data-overrun', retried=bool([f for f in obs.events if f['kind'] == 'fault' and f['n'] < e['n']])))
             if e['kind'] == 'body.end' and e.get('how') == 'eof':
                 finished.add(int(e['key'].split('GetObject:')[1].split('#')[0]) // C)
             elif e['kind'] == 'api.begin' and e['op'] == 'GetObject' and e.get('disc') not in (None, 'all'):
